@@ -177,3 +177,83 @@ PROPS["C07"] = {
                       "windows of 2-3 symbols at word-straddling concrete offsets; probe position symbolic"},
     "outside": "other lengths/offsets; in-place forms on &mut SeqSlice are unreachable through the public API",
 }
+
+PROPS["C20"] = {
+    "feature": "c20",
+    "tiers": tiers("C20"),
+    "mem_gb": 16,
+    "functions": ["MaskableMut/Maskable/ComplementMut for masked::Iupac and masked::Dna", "MaskableMut for Seq (per-chunk load/mask/store)", "Maskable::to_mask/to_unmask",
+                  "ReverseMut/ComplementMut for Seq (composition)"],
+    "bounds": {"all": "symbols: all 32 (5-bit) / 16 (4-bit) patterns decided by the solver; sequences: owned Seq<masked::Iupac> of 2, 3 and 13 symbols "
+                      "(13 = first symbol that straddles a 64-bit word) with symbolic content, operations mask, unmask, mask;rev, rev;mask, mask;comp, comp;mask "
+                      "checked position-wise with a symbolic probe position; Seq<masked::Dna> of 2 symbols"},
+    "outside": "other lengths; windows at other offsets",
+}
+
+PROPS["C12"] = {
+    "feature": "c12",
+    "tiers": tiers("C12"),
+    "mem_gb": 20,
+    "functions": ["BitAnd/BitOr for &SeqSlice<Iupac>", "Seq::bit_and/bit_or", "contains on Seq<Iupac> and SeqSlice<Iupac>", "Iupac one-hot encoding, complement table"],
+    "bounds": {"all": "symbols: all 256 pairs decided by the solver; sequences: operands of 2-4 symbols at independent concrete offsets from "
+                      "{0,1,3,4,7,9,14,15} (15 = word-straddling) of two symbolic words, result checked position-wise with a symbolic probe; "
+                      "contains incl. both length-mismatch directions"},
+    "outside": "other offsets and longer operands; SeqArray::contains (same body as the slice form)",
+}
+
+PROPS["C06"] = {
+    "feature": "c06",
+    "tiers": tiers("C06"),
+    "mem_gb": 20,
+    "functions": ["Seq::{push,extend,append,prepend,insert,remove,truncate,clear,bit_range}", "Clone for Seq", "ToOwned for SeqSlice"],
+    "bounds": {"all": "single edit step (inductive) from an owned state with fully symbolic content: concrete shapes - state length 0..6 (31/34 in thorough) "
+                      "copied from a window at symbol offset 3 (or word-straddling offsets for 5/6-bit codecs), argument windows of 0-3 symbols at independent "
+                      "offsets incl. word-straddling ones; every RangeBounds form for remove; positions front/middle/end for insert; result compared with the "
+                      "list model at a symbolic probe position; two 2-step compositions as cross-check"},
+    "outside": "long random histories (covered only through the single-step induction: every step re-establishes 'length multiple of BITS, content = list'); "
+               "growth beyond capacity relies on bitvec/alloc reallocation preserving content",
+    "level_text": "bounded model checking of one inductive edit step per operation and shape; histories of any length follow if each step preserves the "
+                  "representation invariant, which the harnesses re-check through len() and position-wise reads",
+}
+
+PROPS["C19"] = {
+    "feature": "c19",
+    "tiers": tiers("C19"),
+    "mem_gb": 16,
+    "functions": ["From<&SeqSlice<A>>/From<&SeqArray>/From<SeqArray> for Seq<B>", "From<Dna> for Iupac", "From<dna::Dna> for text::Dna", "TryFrom<text::Dna> for dna::Dna", "Seq::trim_u8"],
+    "bounds": {"all": "symbol maps: exhaustive by solver (4 bases; all 256 text bytes); conversions: windows of 2-3 Dna symbols at concrete offsets incl. the "
+                      "word-straddling one, symbolic content; trimming: byte strings of length 0..4 with ONE fully symbolic byte (all 256 values) at each "
+                      "position among concrete neighbours chosen to put it at the start, the interior and the end of the acceptable span"},
+    "outside": "byte strings with two or more simultaneously symbolic bytes (the builder state then becomes symbolic and does not finish, see DESIGN 2.6)",
+}
+
+PROPS["C18"] = {
+    "feature": "c18",
+    "tiers": tiers("C18"),
+    "mem_gb": 20,
+    "functions": ["derive(Serialize, Deserialize) on Kmer (storage integer) and Seq (bitvec serde impl: order, head, bits, data)", "bincode 1.3 serialize/deserialize"],
+    "bounds": {"all": "bincode only. k-mers: storage integer fully symbolic for the listed (codec,K,storage); owned sequences of 0-3 symbols with symbolic content, "
+                      "with and without spare capacity"},
+    "outside": "JSON (serde_json text formatting/parsing: not applicable to this technique); sequences whose bit vector has a non-zero head (not constructible "
+               "through bio-seq's API after the D2 fix except via From<BitVec>)",
+    "assumptions": ["the JSON half of the property is NOT covered (text formatting is outside symbolic execution's reach)"],
+}
+
+import c17stage
+PROPS["C17"] = {
+    "feature": "c17",
+    "tiers": tiers("C17", quick_cfgs=(DAON, DAOFF)),
+    "stages": [c17stage.stage],
+    "mem_gb": 6,
+    "functions": ["bio_seq_derive::codec_derive (expansion by the real proc macro inside rustc)", "parse_variants / parse_width (through their observable output)",
+                  "the generated Codec impls of every declaration in the family"],
+    "bounds": {"all": "program dimension: fixed family of 16 declarations (widths 1,2,3,4,6,7,8 with and without #[bits]; decimal/hex/binary/u8-suffixed/byte "
+                      "literal discriminants; 2,3,4,5,8,16,40 variants; maximal discriminants 1,3,4,7,8,127,128,254,255; alternatives and display characters) "
+                      "+ VERIF_SEED-random declarations (6 quick / 24 thorough) + in thorough every maximal discriminant 1..=255 for the default-width rule; "
+                      "8 malformed declarations. data dimension: for the fixed family every codec law is decided by the solver for all 256 bytes in both build "
+                      "configurations; random declarations are law-tested natively over all 256 bytes"},
+    "outside": "declarations outside the generated family (the quantifier ranges over programs; macro expansion runs inside rustc and cannot be symbolic)",
+    "level_text": "per generated declaration the solver decides the codec laws for all 256 input bytes (data dimension complete); the program dimension is a "
+                  "generated family compiled with the real derive, including compile-outcome checks in dev and release profiles",
+    "technique": "Kani/CBMC over derive-expanded code of a generated declaration family + compile-outcome checks of well-formed/malformed declarations",
+}
